@@ -220,19 +220,59 @@ pub fn run(report: &Report, thorough: bool) -> Evidence {
         cfgs.push(o);
     }
 
+    // A learned-selection store (a non-first candidate for each short word of the alphabet), so
+    // that the preselection clause is exercised with indices other than 0.
+    let store: String = {
+        let mut o = Opts::phonetic(&real_db(), &scratch_xdg("c17-store"));
+        o.smart = false;
+        let mut c = Ctx::new(&o).expect("ctx");
+        c.with_pre = false;
+        let mut m = serde_json::Map::new();
+        for w in ["a", "s", "as", "sa", "aa", "ss", "k", "ami", "sesh", "se", "na", "ki"] {
+            let _ = c.apply(&Ev::Finish);
+            let mut last = None;
+            for ch in w.chars() {
+                last = c.ch(ch).ok();
+            }
+            if let Some(r) = last {
+                let items = r.items();
+                // the last Bengali candidate that is not an emoji
+                if let Some(pick) = items.iter().skip(1).rev().find(|x| x.chars().all(crate::bn::is_bengali_block)) {
+                    m.insert(w.to_string(), json!(pick));
+                }
+            }
+        }
+        serde_json::Value::Object(m).to_string()
+    };
     let run_part = |name: &str, alphabet: &[char], prefixes: &[String], depth: usize| -> (u64, u64) {
         let before = (compared.load(Ordering::Relaxed), events.load(Ordering::Relaxed));
+        // every prefix is walked twice: without and with the learned store (odd job indices)
+        let prefixes: Vec<String> = prefixes.iter().flat_map(|p| [p.clone(), p.clone()]).collect();
+        let prefixes = &prefixes[..];
         par_for(
             prefixes.len() * cfgs.len(),
             1,
             |w| scratch_xdg(&format!("c17-{}-{}", name, w)),
             |xdg, idx| {
                 let mut o = cfgs[idx % cfgs.len()].clone();
+                if !o.is_phonetic() && (idx / cfgs.len()) % 2 == 1 {
+                    return; // the store only exists in phonetic mode
+                }
                 o.xdg = xdg.clone();
                 let mut o_on = o.clone();
                 o_on.smart = true;
                 let mut o_off = o.clone();
                 o_off.smart = false;
+                // the two contexts get their own copy of the same learned store
+                o_off.xdg = format!("{}-off", xdg);
+                std::fs::create_dir_all(o_off.user_dir()).expect("dir");
+                if o.is_phonetic() && (idx / cfgs.len()) % 2 == 1 {
+                    std::fs::write(o_on.selection_file(), &store).expect("store");
+                    std::fs::write(o_off.selection_file(), &store).expect("store");
+                } else {
+                    crate::drv::clear_user_files(&o_on);
+                    crate::drv::clear_user_files(&o_off);
+                }
                 let mut on = Ctx::new(&o_on).expect("ctx");
                 let mut off = Ctx::new(&o_off).expect("ctx");
                 on.with_pre = false;
@@ -280,6 +320,7 @@ pub fn run(report: &Report, thorough: bool) -> Evidence {
     ev.set("states", compared.load(Ordering::Relaxed).max(1));
     ev.set("transitions", events.load(Ordering::Relaxed).max(1));
     ev.set("traces_validated_against_impl", compared.load(Ordering::Relaxed));
+    ev.set("learned_store_used_in_half_of_the_phonetic_walks", serde_json::from_str::<serde_json::Value>(&store).unwrap());
     ev.set("pairs_where_the_option_changed_something", curled.load(Ordering::Relaxed));
     ev.set("parts", serde_json::Value::Object(parts));
     ev.set("samples", samples.take());
